@@ -6,6 +6,7 @@ import (
 	"fmt"
 	"os"
 	"reflect"
+	"sort"
 	"strconv"
 	"strings"
 
@@ -38,6 +39,15 @@ type cworld struct {
 	nodeH   map[acmelib.EntityID]int
 	msgH    map[acmelib.EntityID]int
 	sigObjs []any
+	sigTab  []acmelib.Signal // signal table: handle = position (as in the model)
+	sigFree []int            // standard signals not yet in a message
+	types   []*acmelib.SignalType
+	units   []*acmelib.SignalUnit
+	typeH   map[acmelib.EntityID]int
+	unitH   map[acmelib.EntityID]int
+	enumH   map[acmelib.EntityID]int
+	noSend  []bool         // per message: holds an enum signal (kept without sender: its error route stays [signal, message])
+	recvOf  []map[int]bool // per message: nodes that receive it
 	nextSig int
 	nextVal int
 	nextMsg int
@@ -59,6 +69,12 @@ func (c *cworld) roots() []any {
 		rs = append(rs, x)
 	}
 	for _, x := range c.attrs {
+		rs = append(rs, x)
+	}
+	for _, x := range c.types {
+		rs = append(rs, x)
+	}
+	for _, x := range c.units {
 		rs = append(rs, x)
 	}
 	rs = append(rs, c.sigObjs...)
@@ -151,6 +167,133 @@ func dash(s string) string {
 	return s
 }
 
+// sigFromChain returns the handle of the signal named in the EntityError chain (-1: none).
+func (c *cworld) sigFromChain(err error) int {
+	e := err
+	for e != nil {
+		var ee *acmelib.EntityError
+		if !errors.As(e, &ee) {
+			break
+		}
+		if ee.Kind == acmelib.EntityKindSignal {
+			if h, ok := c.sigID[ee.EntityID]; ok {
+				return h
+			}
+		}
+		e = ee.Err
+	}
+	return -1
+}
+
+// hintSiteHistory drives the THIRD set-site of SignalEnum.parErrID, SignalEnum.modifySize
+// (signal_enum.go), which only fails after verifyValueIndex has accepted the index: two enum
+// signals of one enum in one layout (pad[5] es1 es2 in a 1-byte message; each alone may grow by one
+// bit, both together may not - D36).  AddValue then returns through se.errorf (hint consumed);
+// SignalEnumValue.UpdateIndex reaches modifyValueIndex, which panics.  Either way the hint must be
+// unset afterwards, and the failing lookup that follows must not write.  The history is also
+// replayed on the model (oracle argument push_fail = the signal the code named).
+func hintSiteHistory(rep *report, reindex bool, hidx int) string {
+	c := &cworld{sigID: map[acmelib.EntityID]int{}, valH: map[acmelib.EntityID]int{}, attrH: map[acmelib.EntityID]int{},
+		nodeH: map[acmelib.EntityID]int{}, msgH: map[acmelib.EntityID]int{}, typeH: map[acmelib.EntityID]int{},
+		unitH: map[acmelib.EntityID]int{}, enumH: map[acmelib.EntityID]int{}}
+	var toks []string
+	emit := func(tok string, res []int) { toks = append(toks, tok+"="+ints(res)+"|"+c.hints()) }
+	site := "AddValue"
+	if reindex {
+		site = "UpdateIndex/modifyValueIndex"
+	}
+	e := acmelib.NewSignalEnum("e0")
+	c.enums = append(c.enums, e)
+	c.refs = append(c.refs, []int{1, 2})
+	emit("ne", []int{0})
+	v1 := acmelib.NewSignalEnumValue("v1", 1)
+	if e.AddValue(v1) != nil {
+		return ""
+	}
+	emit("av:0:1:1:-", []int{0})
+	t5, _ := acmelib.NewIntegerSignalType("t5", 5, false)
+	c.types = append(c.types, t5)
+	emit("nt:"+ints(typeFields(t5)), []int{0})
+	pad, _ := acmelib.NewStandardSignal("s0", t5)
+	emit("ns:0:-1", []int{0})
+	es1, _ := acmelib.NewEnumSignal("es1", e)
+	es2, _ := acmelib.NewEnumSignal("es2", e)
+	m := acmelib.NewMessage("m1", 1, 1)
+	if m.AppendSignal(pad) != nil || m.AppendSignal(es1) != nil || m.AppendSignal(es2) != nil {
+		return ""
+	}
+	c.sigID[pad.EntityID()], c.sigID[es1.EntityID()], c.sigID[es2.EntityID()] = 0, 1, 2
+	c.sigObjs = append(c.sigObjs, pad, es1, es2)
+	c.msgs = append(c.msgs, m)
+	emit("er:0:1:3:1", []int{0})
+	emit("er:0:2:2:1", []int{0})
+	emit("nm:1:0:1:0:0,1,2", []int{0})
+	var res []int
+	pf := -1
+	if !reindex {
+		err := e.AddValue(acmelib.NewSignalEnumValue("v2", 2))
+		if err == nil {
+			return "" // the layouts accepted it (D36 repaired): nothing to observe at this site
+		}
+		res = c.enumErr(0, err)
+		pf = c.sigFromChain(err)
+	} else {
+		var pv any
+		var err error
+		func() {
+			defer func() { pv = recover() }()
+			err = v1.UpdateIndex(2)
+		}()
+		if pv == nil {
+			if err == nil {
+				return ""
+			}
+			res = c.enumErr(0, err)
+			pf = c.sigFromChain(err)
+		} else {
+			res = []int{999}
+			if perr, ok := pv.(error); ok {
+				for _, k := range chainKinds(perr) {
+					if k != int(acmelib.EntityKindSignalEnumValue) {
+						res = append(res, k)
+					}
+				}
+				pf = c.sigFromChain(perr)
+			}
+		}
+	}
+	raw := reflect.ValueOf(e).Elem().FieldByName("parErrID").String()
+	if pf < 0 {
+		if h, ok := c.sigID[acmelib.EntityID(raw)]; ok {
+			pf = h
+		}
+	}
+	pfs := "-"
+	if pf >= 0 {
+		pfs = strconv.Itoa(pf)
+	}
+	if reindex {
+		emit("ri:0:1:2:"+pfs, res)
+	} else {
+		emit("av:0:2:2:"+pfs, res)
+	}
+	rep.counters["corr_modifysize_hint_site_runs"]++
+	if raw != "" {
+		rep.fail("hint-left-set:SignalEnum.parErrID",
+			fmt.Sprintf("I11 broken on the implementation: after SignalEnumValue/SignalEnum %s failed in SignalEnum.modifySize (two enum signals of one enum in one 1-byte message, new index 2) the enum keeps parErrID=%q; the next failing read-only lookup clears it = a write on a read path", site, raw))
+	}
+	roots := c.roots()
+	before := snapshotLines(roots)
+	_, gerr := e.GetValue("no-such-value")
+	after := snapshotLines(roots)
+	if d := diffLines(before, after); d != "" {
+		rep.fail("snapshot-write:"+changedField(before, after),
+			fmt.Sprintf("hint-site history %d (%s): read-only SignalEnum.GetValue (miss) wrote shared state: %s", hidx, site, d))
+	}
+	emit("Rgv:0:999999", c.enumErr(0, gerr))
+	return strings.Join(toks, " ")
+}
+
 func corrPhase(rep *report, seed uint64, histories int, casesPath string) {
 	f, err := os.Create(casesPath)
 	if err != nil {
@@ -159,6 +302,16 @@ func corrPhase(rep *report, seed uint64, histories int, casesPath string) {
 	defer f.Close()
 	bw := bufio.NewWriter(f)
 	defer bw.Flush()
+	for k := 0; k < 12; k++ {
+		if line := hintSiteHistory(rep, k%2 == 1, k); line != "" {
+			bw.WriteString(line)
+			bw.WriteByte('\n')
+			rep.counters["corr_histories"]++
+			if k < 2 {
+				rep.samples = append(rep.samples, "corr hint-site history: "+line)
+			}
+		}
+	}
 	for h := 0; h < histories; h++ {
 		r := newRng(seed ^ (uint64(h+1) * 0xA24BAED4963EE407))
 		line, stats, diffAt := corrHistory(rep, r, h, 0)
@@ -190,9 +343,10 @@ func corrPhase(rep *report, seed uint64, histories int, casesPath string) {
 func corrHistory(rep *report, r *rng, hidx int, probe int) (string, [3]int, int) {
 	roCount, firstDiffRO := 0, 0
 	c := &cworld{sigID: map[acmelib.EntityID]int{}, valH: map[acmelib.EntityID]int{}, attrH: map[acmelib.EntityID]int{},
-		nodeH: map[acmelib.EntityID]int{}, msgH: map[acmelib.EntityID]int{}, nextSig: 1, nextVal: 1, nextMsg: 1}
+		nodeH: map[acmelib.EntityID]int{}, msgH: map[acmelib.EntityID]int{}, typeH: map[acmelib.EntityID]int{},
+		unitH: map[acmelib.EntityID]int{}, enumH: map[acmelib.EntityID]int{}, nextSig: 0, nextVal: 1, nextMsg: 1}
 	for a := 0; a < 4; a++ {
-		att := acmelib.NewStringAttribute(fmt.Sprintf("att%03d", a), "d")
+		att := acmelib.NewStringAttribute(fmt.Sprintf("att%03d", a), fmt.Sprintf("d%d", 7+a))
 		c.attrs = append(c.attrs, att)
 		c.attrH[att.EntityID()] = a
 	}
@@ -250,6 +404,7 @@ func corrHistory(rep *report, r *rng, hidx int, probe int) (string, [3]int, int)
 	}
 	newEnum := func() {
 		e := acmelib.NewSignalEnum(fmt.Sprintf("e%d", len(c.enums)))
+		c.enumH[e.EntityID()] = len(c.enums)
 		c.enums = append(c.enums, e)
 		c.vals = append(c.vals, map[int]*acmelib.SignalEnumValue{})
 		c.valIdx = append(c.valIdx, map[int]int{})
@@ -262,8 +417,30 @@ func corrHistory(rep *report, r *rng, hidx int, probe int) (string, [3]int, int)
 	newNode()
 	newNode()
 	newEnum()
+	// shared pools: attribute definitions, signal types, units (read by every exporter worker)
+	for a := range c.attrs {
+		emit("nd:"+ints(attrDef(c.attrs[a])), []int{0})
+	}
 	flagT := acmelib.NewFlagSignalType("flag")
-	c.hidden = append(c.hidden, flagT)
+	int8T, _ := acmelib.NewIntegerSignalType("int8", 8, false)
+	for _, ty := range []*acmelib.SignalType{flagT, int8T} {
+		c.typeH[ty.EntityID()] = len(c.types)
+		c.types = append(c.types, ty)
+		emit("nt:"+ints(typeFields(ty)), []int{0})
+	}
+	for u := 0; u < 2; u++ {
+		un := acmelib.NewSignalUnit(fmt.Sprintf("unit%d", u), acmelib.SignalUnitKindCustom, fmt.Sprintf("u%d", 80+u))
+		c.unitH[un.EntityID()] = len(c.units)
+		c.units = append(c.units, un)
+		emit(fmt.Sprintf("nu:%d", 80+u), []int{0})
+	}
+	addMsg := func(m *acmelib.Message, holdsEnum bool) {
+		c.msgH[m.EntityID()] = len(c.msgs)
+		c.msgs = append(c.msgs, m)
+		c.hasSend = append(c.hasSend, false)
+		c.noSend = append(c.noSend, holdsEnum)
+		c.recvOf = append(c.recvOf, map[int]bool{})
+	}
 	steps := 25 + r.intn(40)
 	for s := 0; s < steps; s++ {
 		k := r.intn(100)
@@ -289,27 +466,36 @@ func corrHistory(rep *report, r *rng, hidx int, probe int) (string, [3]int, int)
 			m.SetCycleTime(cyc)
 			var ss []int
 			for j := 0; j < r.intn(4); j++ {
-				sg := 1000 + c.nextSig
+				// a standard signal of a shared type (and maybe a shared unit) enters the signal table
+				sg := c.nextSig
+				ti, ui := r.intn(len(c.types)), r.intn(len(c.units)+1)-1
+				sig, err := acmelib.NewStandardSignal(fmt.Sprintf("s%d", sg), c.types[ti])
+				if err != nil {
+					continue
+				}
+				if ui >= 0 {
+					sig.SetUnit(c.units[ui])
+				}
 				c.nextSig++
-				sig, _ := acmelib.NewStandardSignal(fmt.Sprintf("s%d", sg), flagT)
+				c.sigTab = append(c.sigTab, sig)
+				c.sigObjs = append(c.sigObjs, sig)
+				c.sigID[sig.EntityID()] = sg
+				emit(fmt.Sprintf("ns:%d:%d", ti, ui), []int{0})
 				if m.AppendSignal(sig) == nil {
 					ss = append(ss, sg)
-					c.sigID[sig.EntityID()] = sg
 				}
 			}
-			c.msgH[m.EntityID()] = len(c.msgs)
-			c.msgs = append(c.msgs, m)
-			c.hasSend = append(c.hasSend, false)
+			addMsg(m, false)
 			emit(fmt.Sprintf("nm:%d:%d:%d:%d:%s", id, prio, bytes, cyc, dash(ints(ss))), []int{0})
 		case k < 16: // sender
 			if len(c.msgs) == 0 {
 				continue
 			}
 			m := r.intn(len(c.msgs))
-			if c.hasSend[m] {
+			n := r.intn(len(c.nodes))
+			if c.hasSend[m] || c.noSend[m] || c.recvOf[m][n] {
 				continue
 			}
-			n := r.intn(len(c.nodes))
 			i := r.intn(len(c.ifBus[n]))
 			err := c.nodes[n].Interfaces()[i].AddSentMessage(c.msgs[m])
 			res := []int{0}
@@ -385,11 +571,13 @@ func corrHistory(rep *report, r *rng, hidx int, probe int) (string, [3]int, int)
 		case k < 56: // referencing enum signal, detached or as the only signal of its own message
 			e := r.intn(len(c.enums))
 			sg := c.nextSig
-			c.nextSig++
 			sig, err := acmelib.NewEnumSignal(fmt.Sprintf("es%d", sg), c.enums[e])
 			if err != nil {
 				continue
 			}
+			c.nextSig++
+			c.sigTab = append(c.sigTab, sig)
+			var ownMsg *acmelib.Message
 			capBits, inMsg := -1, 0
 			// all capped references of one enum have the same kind of parent: which failing
 			// reference sets the hint depends on map order, and the error route (the only
@@ -410,7 +598,7 @@ func corrHistory(rep *report, r *rng, hidx int, probe int) (string, [3]int, int)
 				if hm.AppendSignal(sig) == nil {
 					capBits, inMsg = bytes*8, 1
 					c.refKind[e] = 1
-					c.hidden = append(c.hidden, hm)
+					ownMsg = hm
 				}
 			case kk < 8: // the only signal of group 0 of a multiplexer signal that is in no message
 				gsize := c.enums[e].GetSize() + r.intn(6)
@@ -434,6 +622,11 @@ func corrHistory(rep *report, r *rng, hidx int, probe int) (string, [3]int, int)
 				cs = strconv.Itoa(capBits)
 			}
 			emit(fmt.Sprintf("er:%d:%d:%s:%d", e, sg, cs, inMsg), []int{0})
+			if ownMsg != nil {
+				// the message is a message of the model too (exported, looked up, received)
+				addMsg(ownMsg, true)
+				emit(fmt.Sprintf("nm:%d:0:%d:0:%d", int(ownMsg.ID()), ownMsg.SizeByte(), sg), []int{0})
+			}
 		case k < 72: // add value: small, duplicate index, duplicate name, or too big for a capped signal
 			e := r.intn(len(c.enums))
 			v := c.nextVal
@@ -465,7 +658,7 @@ func corrHistory(rep *report, r *rng, hidx int, probe int) (string, [3]int, int)
 				c.valIdx[e][v] = idx
 				c.valH[obj.EntityID()] = v
 			}
-			emit(fmt.Sprintf("av:%d:%d:%d", e, v, idx), res)
+			emit(fmt.Sprintf("av:%d:%d:%d:-", e, v, idx), res)
 		case k < 76: // remove value (hit or miss)
 			e := r.intn(len(c.enums))
 			v := 1 + r.intn(c.nextVal)
@@ -526,7 +719,44 @@ func corrHistory(rep *report, r *rng, hidx int, probe int) (string, [3]int, int)
 				// accepted although predicted to fail: leave it to the model comparison
 				c.valIdx[e][hv] = idx
 			}
-			emit(fmt.Sprintf("ri:%d:%d:%d", e, hv, idx), res)
+			emit(fmt.Sprintf("ri:%d:%d:%d:-", e, hv, idx), res)
+		case k < 83: // attribute on a signal / message (shared attribute objects)
+			a := r.intn(len(c.attrs))
+			if r.chance(50) && len(c.sigTab) > 0 {
+				sg := r.intn(len(c.sigTab))
+				res := []int{0}
+				if c.sigTab[sg].AssignAttribute(c.attrs[a], "v") != nil {
+					res = []int{-1}
+				}
+				emit(fmt.Sprintf("sa:%d:%d", sg, a), res)
+			} else if len(c.msgs) > 0 {
+				m := r.intn(len(c.msgs))
+				res := []int{0}
+				if c.msgs[m].AssignAttribute(c.attrs[a], "v") != nil {
+					res = []int{-1}
+				}
+				emit(fmt.Sprintf("ma:%d:%d", m, a), res)
+			}
+		case k < 86: // receiver (never the sender's node, one interface per node: D22 is C05's)
+			if len(c.msgs) == 0 {
+				continue
+			}
+			m := r.intn(len(c.msgs))
+			n := r.intn(len(c.nodes))
+			if c.recvOf[m][n] {
+				continue
+			}
+			if sn := c.msgs[m].SenderNodeInterface(); sn != nil && c.nodeH[sn.Node().EntityID()] == n {
+				continue
+			}
+			i := r.intn(len(c.ifBus[n]))
+			res := []int{0}
+			if c.msgs[m].AddReceiver(c.nodes[n].Interfaces()[i]) != nil {
+				res = []int{-1}
+			} else {
+				c.recvOf[m][n] = true
+			}
+			emit(fmt.Sprintf("mr:%d:%d:%d", m, n, i), res)
 		default: // read-only operations
 			c.readOp(r, snapRO)
 		}
@@ -550,7 +780,93 @@ func corrHistory(rep *report, r *rng, hidx int, probe int) (string, [3]int, int)
 }
 
 func (c *cworld) readOp(r *rng, snapRO func(string, func() []int)) {
-	switch r.intn(15) {
+	switch r.intn(23) {
+	case 15:
+		b := r.intn(len(c.buses))
+		snapRO(fmt.Sprintf("Rba:%d", b), func() []int {
+			var res []int
+			for _, aa := range c.buses[b].AttributeAssignments() {
+				res = append(res, c.attrH[aa.Attribute().EntityID()])
+			}
+			return res
+		})
+	case 16:
+		if len(c.msgs) == 0 {
+			return
+		}
+		m := r.intn(len(c.msgs))
+		snapRO(fmt.Sprintf("Rmr:%d", m), func() []int {
+			type rk struct{ name, enc int }
+			var rs []rk
+			for _, ni := range c.msgs[m].Receivers() {
+				nm, _ := strconv.Atoi(strings.TrimPrefix(ni.Node().Name(), "n"))
+				rs = append(rs, rk{nm, c.nodeH[ni.Node().EntityID()]*1024 + ni.Number()})
+			}
+			// the code breaks name ties by entity id (not modelled): ties are re-ordered by handle
+			sort.SliceStable(rs, func(i, j int) bool {
+				return rs[i].name < rs[j].name || (rs[i].name == rs[j].name && rs[i].enc < rs[j].enc)
+			})
+			var res []int
+			for _, x := range rs {
+				res = append(res, x.enc)
+			}
+			return res
+		})
+	case 17:
+		if len(c.msgs) == 0 {
+			return
+		}
+		m := r.intn(len(c.msgs))
+		snapRO(fmt.Sprintf("Rma:%d", m), func() []int {
+			var res []int
+			for _, aa := range c.msgs[m].AttributeAssignments() {
+				res = append(res, c.attrH[aa.Attribute().EntityID()])
+			}
+			return res
+		})
+	case 18:
+		if len(c.sigTab) == 0 {
+			return
+		}
+		sg := r.intn(len(c.sigTab))
+		snapRO(fmt.Sprintf("Rsf:%d", sg), func() []int {
+			res := []int{-1, -1, -1}
+			sig := c.sigTab[sg]
+			if st, err := sig.ToStandard(); err == nil {
+				res[0] = c.typeH[st.Type().EntityID()]
+				if u := st.Unit(); u != nil {
+					res[1] = c.unitH[u.EntityID()]
+				}
+			}
+			if es, err := sig.ToEnum(); err == nil {
+				res[2] = c.enumH[es.Enum().EntityID()]
+			}
+			return res
+		})
+	case 19:
+		if len(c.sigTab) == 0 {
+			return
+		}
+		sg := r.intn(len(c.sigTab))
+		snapRO(fmt.Sprintf("Rsa:%d", sg), func() []int {
+			var res []int
+			for _, aa := range c.sigTab[sg].AttributeAssignments() {
+				res = append(res, c.attrH[aa.Attribute().EntityID()])
+			}
+			return res
+		})
+	case 20:
+		t := r.intn(len(c.types))
+		snapRO(fmt.Sprintf("Rtf:%d", t), func() []int { return typeFields(c.types[t]) })
+	case 21:
+		u := r.intn(len(c.units))
+		snapRO(fmt.Sprintf("Ruf:%d", u), func() []int {
+			v, _ := strconv.Atoi(strings.TrimPrefix(c.units[u].Symbol(), "u"))
+			return []int{v}
+		})
+	case 22:
+		a := r.intn(len(c.attrs))
+		snapRO(fmt.Sprintf("Rad:%d", a), func() []int { return attrDef(c.attrs[a]) })
 	case 0:
 		n, a := r.intn(len(c.nodes)), r.intn(len(c.attrs)+1)
 		snapRO(fmt.Sprintf("Rga:%d:%d", n, a), func() []int {
@@ -720,6 +1036,23 @@ func (c *cworld) readOp(r *rng, snapRO func(string, func() []int)) {
 			return res
 		})
 	}
+}
+
+func typeFields(t *acmelib.SignalType) []int {
+	sg := 0
+	if t.Signed() {
+		sg = 1
+	}
+	return []int{t.Size(), sg, int(t.Min()), int(t.Max()), int(t.Scale()), int(t.Offset())}
+}
+
+func attrDef(a acmelib.Attribute) []int {
+	res := []int{int(a.Type())}
+	if sa, err := a.ToString(); err == nil {
+		v, _ := strconv.Atoi(strings.TrimPrefix(sa.DefValue(), "d"))
+		res = append(res, v)
+	}
+	return res
 }
 
 func (c *cworld) busHandle(b *acmelib.Bus) int {
